@@ -8,6 +8,7 @@
    address space, cursor positions not fitting u64); every content, length and position is covered. *)
 From VM Require Import Prelude.MachInt Prelude.Outcome Prelude.C1314List Impl.Io Impl.Std Impl.IoGuest Spec.C13 Suite.C13 Proofs.C13.
 From VM Require Import Spec.C13fd Suite.C13fd Proofs.C13fd.
+From VM Require Import Spec.C13big Suite.C13big Proofs.C13big.
 
 (* the model satisfies the executable checker on every well-formed history (any length) *)
 Theorem C13_model_ok : forall c, wf13 c -> ok_C13 c (run_C13 c) = true.
@@ -259,3 +260,77 @@ Print Assumptions C13_scripted_read_exact_eq_std.
 Print Assumptions C13_scripted_write_all_eq_std.
 Print Assumptions C13_scripted_hard_error_reported.
 Print Assumptions C13fd_slice_route_same.
+
+(* ---------------------------------------------------------------------------------------------
+   LARGE SIZES (suite C13big; Spec/C13big.v, Suite/C13big.v, Proofs/C13big.v).  Buffers and streams of 4095 ... 3*2^20
+   bytes are run at the level of LENGTHS: a stream is [bst] = (length, position, bytes delivered to the peer), the
+   adapters are [b_call] / [b_retry] / [b_exact_loop] / [b_exact] (src/io.rs transcribed over lengths), std is
+   [b_std_step]; the harness reports counts and first-difference indices against the expected pattern bytes. *)
+
+(* the length-level model satisfies the checker for all sizes and scripts of any length; it never panics or runs dry *)
+Theorem C13big_model_ok : forall kd c, wf13big kd c = true -> ok_C13big c (run_C13big c) = true.
+Proof. exact C13big_model_ok_lemma. Qed.
+
+Theorem C13big_terminates : forall kd c, wf13big kd c = true -> exists f rc, b_vm_step c = Val (f, rc).
+Proof. exact C13big_terminates_lemma. Qed.
+
+(* THE LINK: the length-level model IS the byte-list model of Impl/Io.v (the one suites C13 / C13fd run and the
+   theorems above are about) seen through [abs_st] = (length of the data, position, length of what the peer got) - for
+   EVERY content, size, position and script, not only the ones a run can afford.  In-memory adapters: *)
+Theorem C13big_is_Io_mem : forall md k bk content st o bo budget st' m' rc,
+  bk_of k = Some bk -> fd_kind k = false -> bop_of13 o = Some bo ->
+  op_wf k o -> st_inv k content st (nlen (op_buf o) + budget) ->
+  vm_step md k st o = Val ((st', m'), rc) ->
+  exists f',
+    b_vm_step {| g_mode := md; g_kind := bk; g_init := abs_st st; g_op := bo; g_blen := nlen (op_buf o);
+                 g_script := [] |} = Val (f', rc)
+    /\ h_st f' = abs_st st'.
+Proof. exact big_is_Io_mem_lemma. Qed.
+
+(* descriptors under any script: same result, same stream lengths, same number of calls, same rest of the script *)
+Theorem C13big_is_Io_fd : forall md k bk st sc o bo f1 m' rc,
+  fd_kind k = true -> bk_of k = Some bk -> bop_of13 o = Some bo -> buf_ok (op_buf o) ->
+  vm_step_scr md k (sfd0 st sc) o = Val ((f1, m'), rc) ->
+  exists f',
+    b_vm_step {| g_mode := md; g_kind := bk; g_init := abs_st st; g_op := bo; g_blen := nlen (op_buf o);
+                 g_script := sc |} = Val (f', rc)
+    /\ h_st f' = abs_st (f_st f1) /\ h_calls f' = f_calls f1 /\ h_script f' = f_script f1.
+Proof. exact big_is_Io_fd_lemma. Qed.
+
+(* ... and the length-level std oracle is Std.v's *)
+Theorem C13big_std_is_Std_mem : forall k bk st sc o bo ost bs rc,
+  bk_of k = Some bk -> fd_kind k = false -> bop_of13 o = Some bo -> op_allowed k o = true ->
+  std_step k st o = Val (ost, bs, rc) ->
+  b_std_step bk (abs_st st) sc bo (nlen (op_buf o))
+  = Val (option_map abs_st ost, rc, if is_read o then nlen bs else nlen (op_buf o)).
+Proof. exact big_std_is_Std_mem_lemma. Qed.
+
+Theorem C13big_std_is_Std_fd : forall k bk st sc o bo ost bs rc,
+  fd_kind k = true -> bk_of k = Some bk -> bop_of13 o = Some bo ->
+  std_step_scr k st sc o = Val (ost, bs, rc) ->
+  exists moved,
+    b_std_step bk (abs_st st) sc bo (nlen (op_buf o)) = Val (option_map abs_st ost, rc, moved)
+    /\ (rc_success rc = true -> moved = moved_of o bs rc)
+    /\ (is_exact13 o = false -> rc_success rc = false -> moved = 0).
+Proof. exact big_std_is_Std_fd_lemma. Qed.
+
+(* non-vacuity: a write of 2^20+1 bytes to a file is ONE call that moves them all; an exact read of 3 MiB whose first
+   read(2) is cut at 2^20+1 bytes takes two calls; a Cursor 5 bytes past its end reads nothing *)
+Example C13big_nonvacuous :
+  let mk := fun k len pos op blen sc =>
+    {| g_mode := Debug; g_kind := k; g_init := {| b_len := len; b_pos := pos; b_out := 0 |}; g_op := op; g_blen := blen;
+       g_script := sc |} in
+  let c1 := mk BFile 0 0 BWrite 1048577 [] in
+  let c2 := mk BFile 3145728 0 BReadExact 3145728 [FShort 1048577] in
+  let c3 := mk BCurR 1048576 1048581 BRead 4096 [] in
+  wf13big 5 c1 = true /\ v_rc (run_C13big c1) = (0, 1048577) /\ v_calls (run_C13big c1) = 1 /\ v_slen (run_C13big c1) = 1048577
+  /\ wf13big 5 c2 = true /\ v_rc (run_C13big c2) = (1, 0) /\ v_calls (run_C13big c2) = 2 /\ v_moved (run_C13big c2) = 3145728
+  /\ wf13big 3 c3 = true /\ v_rc (run_C13big c3) = (0, 0) /\ v_apos (run_C13big c3) = 1048581.
+Proof. vm_compute. repeat split. Qed.
+
+Print Assumptions C13big_model_ok.
+Print Assumptions C13big_terminates.
+Print Assumptions C13big_is_Io_mem.
+Print Assumptions C13big_is_Io_fd.
+Print Assumptions C13big_std_is_Std_mem.
+Print Assumptions C13big_std_is_Std_fd.
